@@ -11,11 +11,14 @@ import os
 import vlib
 from vlib import log
 
-LET = {"Display": "", "Debug": "?", "LowerHex": "x", "UpperHex": "X", "Octal": "o", "Binary": "b", "LowerExp": "e", "UpperExp": "E"}
+LET = {"Display": "", "Debug": "?", "LowerHex": "x", "UpperHex": "X", "Octal": "o", "Binary": "b", "LowerExp": "e", "UpperExp": "E", "Pointer": "p"}
 ATTR = {"Display": "display", "Debug": "debug", "LowerHex": "lower_hex", "UpperHex": "upper_hex", "Octal": "octal", "Binary": "binary",
-        "LowerExp": "lower_exp", "UpperExp": "upper_exp"}
+        "LowerExp": "lower_exp", "UpperExp": "upper_exp", "Pointer": "pointer"}
 VALS = {"t1": [255], "n1": [254], "t2": [255, 253], "unit": []}
 PRELUDE = r'''
+// Pointer: the fields hold the addresses of these statics; in the observed text the addresses are replaced by P0 / P1 / P2
+pub static K0: i32 = 255; pub static K1: i32 = 253; pub static K2: i32 = 254;
+pub fn unptr(s: String) -> String { s.replace(&format!("{:p}", &K0), "P0").replace(&format!("{:p}", &K1), "P1").replace(&format!("{:p}", &K2), "P2") }
 pub fn report(k: &str, outs: &[String]) {
     let o: Vec<String> = outs.iter().map(|s| format!("{:?}", s)).collect();
     println!("OBS {{\"k\": {:?}, \"outs\": [{}]}}", k, o.join(", "));
@@ -60,15 +63,21 @@ def shared_attr(s, D):
 def variant_decl(i, v, D):
     k = v["kind"]
     body = {"unit": "", "t1": "(i32)", "n1": " { x: i32 }", "t2": "(i32, i32)"}[k]
+    if D == "Pointer":
+        body = body.replace("i32", "&'static i32")
     return f"{own_attr(v, D)}Va{i}{body}"
 
 
-def value(i, v):
+def value(i, v, D=None):
     k = v["kind"]
+    if D == "Pointer":
+        return {"unit": f"En::Va{i}", "t1": f"En::Va{i}(&K0)", "n1": f"En::Va{i} {{ x: &K2 }}", "t2": f"En::Va{i}(&K0, &K1)"}[k]
     return {"unit": f"En::Va{i}", "t1": f"En::Va{i}(255)", "n1": f"En::Va{i} {{ x: 254 }}", "t2": f"En::Va{i}(255, 253)"}[k]
 
 
 def show(n, D):
+    if D == "Pointer":
+        return {255: "P0", 253: "P1", 254: "P2"}[n]
     if D in ("LowerExp", "UpperExp"):
         m = ("%e" % n).split("e")[0].rstrip("0").rstrip(".")      # 255 -> 2.55e2
         e = len(str(n)) - 1
@@ -110,7 +119,8 @@ def decl(c):
 
 def module(c, key):
     D = c["D"]
-    outs = ", ".join('format!("{:%s}", %s)' % (LET[D], value(i, v)) for i, v in enumerate(c["vs"]))
+    outs = ", ".join(('unptr(format!("{:%s}", %s))' if D == "Pointer" else 'format!("{:%s}", %s)') % (LET[D], value(i, v, D))
+                     for i, v in enumerate(c["vs"]))
     return f"use super::*;\n{decl(c)}\npub fn run() {{ report({json.dumps(key)}, &[{outs}]); }}"
 
 
